@@ -156,6 +156,68 @@ def rule_unsupported(chk, prog):
                           "SQFS_ERROR_UNSUPPORTED: entries the tar format cannot express are either fatal or silently dropped")
 
 
+def rule_pax_len(chk, prog):
+    """a PAX record '<len> key=value\\n' counts its own length field.  The number of digits of <len> depends on <len> itself,
+    so it can only be found by iterating until the digit count no longer changes (98 + 2 = 100 needs 3 digits).  Rule: the
+    length printed in front of each record is computed through a loop whose exit compares two successive estimates."""
+    unit = prog.by_src.get("lib/tar/src/write_header.c")
+    if unit is None:
+        return
+    n = 0
+    for f in unit.functions.values():
+        if f.decl:
+            continue
+        f.build()
+        for c in f.calls():
+            if norm_callee(c.callee) not in ("sprintf", "snprintf"):
+                continue
+            from .c16 import cstr
+            fmt = None
+            ai = None
+            for k, a in enumerate(c.ops):
+                s_ = cstr(f, a)
+                if s_ is not None and "=" in s_ and "%" in s_:
+                    fmt, ai = s_, k
+            if fmt is None or not fmt.lstrip().startswith("%"):
+                continue
+            n += 1
+            chk.analysed(f)
+            lenarg = c.ops[ai + 1]
+            # functions whose result flows into the length
+            fix = False
+            work, seenv = [lenarg], set()
+            while work:
+                v = work.pop()
+                for x in backward_slice(v, through_loads=True, phi_control=False, limit=400):
+                    if id(x) in seenv:
+                        continue
+                    seenv.add(id(x))
+                    if x.is_inst and x.op == "call":
+                        t = prog.fn(x.callee, f.unit) if x.callee else None
+                        if t is None or t.decl or t.unit is not unit:
+                            continue
+                        t.build()
+                        for (h, body) in t.loops:
+                            for b in body:
+                                tt = b.term
+                                if tt.op == "br" and len(tt.x["succ"]) == 2 and any(s2 not in body for s2 in tt.x["succ"]):
+                                    cnd = tt.ops[0]
+                                    if cnd.is_inst and cnd.op == "icmp" and cnd.pred in ("eq", "ne"):
+                                        a0, a1 = strip_casts(cnd.ops[0]), strip_casts(cnd.ops[1])
+                                        vals = [a0, a1]
+                                        if any(v2.is_inst and v2.op == "phi" and v2.bb is h for v2 in vals) and \
+                                                any(v2.is_inst and v2.op == "call" for v2 in vals):
+                                            fix = True
+            inst = "%s:record-length" % f.name
+            if fix:
+                chk.ok("K13-paxlen", inst, c, "the length field is found by iterating until its own digit count is stable")
+            else:
+                chk.violation("K13-paxlen", inst, c, "the length in front of the PAX record is not computed by a fix-point iteration over its "
+                              "own digit count: at 98/99, 997..999, ... body bytes the field needs one digit more than estimated and the "
+                              "record is one byte longer than announced")
+    return n
+
+
 def rule_layer_order(chk, prog):
     """C04: the hard-link filter remembers the first *name* of an inode and hands it out as the link target; the compat
     iterator rewrites names (--subdir / --root-becomes) but forwards read_link unchanged.  So the filter has to sit above
@@ -191,8 +253,37 @@ def rule_layer_order(chk, prog):
         if from_compat:
             chk.ok("K12-layer", inst, c, "the hard link filter wraps the name-rewriting iterator: link targets are names of the emitted archive")
         elif not forwards:
-            chk.note("K12-layer %s: the filter is below the compat layer but its read_link is not a pure forward; not decided" % inst)
-            chk.ok("K12-layer", inst, c, "compat read_link does its own work (not decided further)")
+            # the rewriting layer sits on top and translates link targets itself: it has to apply to targets every option it
+            # applies to names.  Sibling agreement: the option globals read by next() (and its helpers) are all read by
+            # read_link() (and its helpers)
+            def opts(fn):
+                out = set()
+                if fn is None:
+                    return out
+                cl, _e, _u = prog.reachable_from([fn], stop=lambda g: g.unit is not fn.unit)
+                for g in cl:
+                    if g.decl:
+                        continue
+                    for i in g.build().insts():
+                        if i.op == "load":
+                            b = strip_casts(resolve_ptr(prog, i.ops[0], g.unit)[0])
+                            if b.is_const and getattr(b, "gname", None):
+                                gl = g.unit.globals.get(b.gname)
+                                if gl is not None and not gl.get("const") and not b.gname.startswith((".str", "std")):
+                                    out.add(b.gname)
+                return out
+            nxt = None
+            for g in prog.functions():
+                if g.unit.src == "bin/sqfs2tar/src/iterator.c" and g.name == "next":
+                    nxt = g
+            on, ol = opts(nxt), opts(compat_rl)
+            missing = sorted(on - ol)
+            if nxt is not None and not missing:
+                chk.ok("K12-layer", inst, c, "the rewriting layer translates link targets itself and reads every option it applies to names (%s)" % ", ".join(sorted(on)))
+            else:
+                chk.violation("K12-layer", inst, c, "the hard link filter is below the path-rewriting iterator; its read_link() rewrites "
+                              "targets but does not look at %s, which next() applies to names: hard links point at names that are not "
+                              "in the archive" % (", ".join(missing) or "the options"))
         else:
             chk.violation("K12-layer", inst, c, "the hard link filter is stacked below the path-rewriting iterator, whose read_link() "
                           "forwards the target unchanged: with --root-becomes / --subdir hard links point at names that are not in the archive")
@@ -275,6 +366,7 @@ def run(chk):
     rule_writer_wellformed(chk, s2t)
     rule_unsupported(chk, s2t)
     rule_layer_order(chk, s2t)
+    rule_pax_len(chk, s2t)
     from ..strtrunc import run_strtrunc
     run_strtrunc(chk, s2t, "K7-strtrunc", lambda src: src.startswith(("lib/tar/", "bin/sqfs2tar/")) and "/test/" not in src)
     rule_sparse_default(chk, allp)
@@ -290,6 +382,7 @@ def run(chk):
     chk.floor("K1-tarpad", 1)
     chk.floor("K5-unsupported", 1)
     chk.floor("K12-layer", 1)
+    chk.floor("K13-paxlen", 1)
     chk.floor("K7-strtrunc", 1)
     chk.floor("K12-sparse", 2)
     chk.floor("T2-short", 5)
